@@ -1,2 +1,3 @@
 pub mod c09_number;
+pub mod dispatch;
 pub mod step;
